@@ -48,7 +48,11 @@ CLAIMED.update({
             "(enumerated inside the harness) with symbolic payload bytes returns the messages intact; one-shot and streaming writers agree; "
             "oversize refused before reading, EOF inside a frame is UnexpectedEof.", E1T + " (chunkings enumerated, contents symbolic)"),
     "C08": ("E1 kani-cbmc", "9.3 C08", "ControlMessageType numbering equals the protocol table in both directions for all 256 byte values; every structured variant "
-            "serialises (to_term and into_term) with the protocol's tag, arity and field order for symbolic field values. from_term is outside.", E1T),
+            "serialises (to_term and into_term) with the protocol's tag, arity and field order for symbolic field values (E1). E2: the MIR of "
+            "ControlMessage::from_term is executed symbolically over an arbitrary input term (tuple of symbolic length, opaque elements, symbolic "
+            "integer-ness and value of the head and of element 1) and z3 checks every return path against the protocol table: tag, arity guard, "
+            "field order, Generic fallback, rejection of bad heads and negative unlink ids, no index out of bounds.",
+            E1T + "; MIR->SMT for from_term with native replay"),
     "C09": ("E1 kani-cbmc", "9.3 C09", "FragmentAssembler on sequences of 1..3 one-byte fragments with symbolic bytes and sequence ids, every arrival permutation, "
             "duplicates, out-of-range ids, early continuations and two interleaved sequences: nothing until the last missing fragment, then the "
             "original bytes in the peer's order, completed sequences removed.", E1T),
